@@ -117,12 +117,18 @@ impl<C: Config> InputSession<C> {
         dirty_batch: VecDeque<QueryID>,
         mut transaction: WriteTransaction<C>,
     ) {
+        #[cfg(feature = "verif_hooks")]
+        crate::engine::verif::yield_point("commit::begin").await;
+
         engine.computation_graph.reset_statistic();
         engine.clear_dirtied_queries();
 
         transaction = engine
             .dirty_propagate_from_batch(dirty_batch.into_iter(), transaction)
             .await;
+
+        #[cfg(feature = "verif_hooks")]
+        crate::engine::verif::yield_point("commit::after_propagation").await;
 
         engine.submit_write_buffer(transaction);
     }
